@@ -12,6 +12,10 @@ CHECKS = {
   text="Coq theorems over a model of insertSort's comparator chain used as the predicate of Go's sort.Search (loop modelled verbatim), Calculate/implicit/explicit withdraw, GetBestPath and getMultiBestPath: the chain equals the documented lexicographic preference for every compatible pair under every option setting; for ALL histories (any length, any interleaving of announce/replace/withdraw) the known-path list is strictly sorted, one entry per source, equal to the latest un-withdrawn paths; hence best path and multipath set are independent of arrival order; best is the documented optimum; multipath is the maximal equal prefix. The full-strength statement (confed-eBGP mixed with iBGP, external-compare-router-id off) is proved FALSE of the faithful model with a witness that the check replays on the implementation (known finding). The comparator order is regenerated from the source by the translator on every run and re-checked against the documented order; correspondence by differential execution (about 15k histories quick).",
   note="Trusted: Coq kernel; model + translator (go/ast) + extraction + harness; ORIGIN assumed present; IPv4 neighbour addresses; one path per source (ADD-PATH duplicates from one source tie by arrival, outside the property's 'distinct sources'). No axioms.",
   tech="Coq proof (sortedness invariant by induction over histories, binary-search correctness, lexicographic-key refinement) + regenerated comparator order + differential correspondence", ref="DESIGN.md 5/C03"),
+ "C16": dict(
+  text="Coq theorems over a model of ROATable (bucketed Add/Delete/DeleteAll, Validate) and of the RTR client state machine (handleRTRMsg/HandleROAEvent): table maintenance refines set semantics on every reachable table; Validate is RFC 6811 (Valid / Invalid / NotFound exactly as defined, AS 0 never matches, AS_SET origin NotFound) for every table, path and route, as a function of the entry SET only; one complete cache response has exactly the documented effect from every state (replace on new session or outstanding Reset Query, else old minus withdrawn plus announced; other caches untouched); every other event's frame condition. Model tied to the code by differential execution (6k histories quick, real 1 s lifetime timers in a few cases) and two Python oracles (RFC 6811 over the implementation's own table dump; cache truth at in-sync points).",
+  note="Trusted: Coq kernel; model, extraction, harness (pkg/server overlay hook drives HandleROAEvent like the Serve loop); critbit WalkMatch specified as containment and validated; IPv6 restricted to the top 64 bits; the history-level claim (table = announced-not-withdrawn) is proved per response and per event, its composition over whole histories is checked by the oracle, not stated as one theorem. No axioms.",
+  tech="Coq proof (set-refinement of the bucketed table, case analysis of Validate, induction over the PDUs of a response) + differential correspondence", ref="DESIGN.md 5/C16"),
 }
 
 NOT_APPLICABLE = {}
